@@ -622,7 +622,7 @@ func (m *machine) bytesFromString(s value) slice {
 
 // checkIndex handles a possibly symbolic index against a concrete length. It returns the
 // concrete index, or -1 together with the in-bounds symbolic index.
-func (m *machine) checkIndex(fr *frame, idx value, n int) (int, *sym) {
+func (m *machine) checkIndex(fr *frame, idx value, n int, it types.Type) (int, *sym) {
 	switch i := idx.(type) {
 	case int64:
 		if i < 0 || i >= int64(n) {
@@ -630,8 +630,19 @@ func (m *machine) checkIndex(fr *frame, idx value, n int) (int, *sym) {
 		}
 		return int(i), nil
 	case *sym:
-		w := i.t.w
-		inb := m.tf.cmp("bvult", i.t, m.tf.bv(uint64(n), w)) // unsigned compare also rejects negatives
+		t64 := i.t
+		if t64.w < 64 {
+			signed := false
+			if b := basicOf(it); b != nil && b.Info()&types.IsInteger != 0 {
+				_, signed = widthOf(b)
+			}
+			if signed {
+				t64 = m.tf.sext(t64, 64)
+			} else {
+				t64 = m.tf.zext(t64, 64)
+			}
+		}
+		inb := m.tf.cmp("bvult", t64, m.tf.bv(uint64(n), 64)) // unsigned compare also rejects negatives
 		m.asserts++
 		m.symAsserts++
 		if !m.decideBool(inb, "index-in-bounds") {
@@ -667,7 +678,7 @@ func (m *machine) indexAddr(fr *frame, instr *ssa.IndexAddr) value {
 	default:
 		panic(fmt.Sprintf("indexAddr: %T", x))
 	}
-	i, s := m.checkIndex(fr, idx, len(win))
+	i, s := m.checkIndex(fr, idx, len(win), instr.Index.Type())
 	if s != nil {
 		return ptr{o: o, symIdx: s, win: win, elemT: et}
 	}
@@ -679,21 +690,21 @@ func (m *machine) indexOp(fr *frame, instr *ssa.Index) value {
 	idx := fr.get(instr.Index)
 	switch x := x.(type) {
 	case array:
-		i, s := m.checkIndex(fr, idx, len(x))
+		i, s := m.checkIndex(fr, idx, len(x), instr.Index.Type())
 		if s != nil {
 			et := instr.X.Type().Underlying().(*types.Array).Elem()
 			return m.load(fr, ptr{symIdx: s, win: x, elemT: et})
 		}
 		return copyVal(x[i])
 	case string, *sstr:
-		return m.strIndex(fr, x, idx)
+		return m.strIndex(fr, x, idx, instr.Index.Type())
 	}
 	panic(fmt.Sprintf("index: %T", x))
 }
 
-func (m *machine) strIndex(fr *frame, x value, idx value) value {
+func (m *machine) strIndex(fr *frame, x value, idx value, it types.Type) value {
 	n := strLen(x)
-	i, s := m.checkIndex(fr, idx, n)
+	i, s := m.checkIndex(fr, idx, n, it)
 	if s != nil {
 		return m.load(fr, ptr{symIdx: s, win: strBytes(x), elemT: types.Typ[types.Uint8]})
 	}
@@ -1132,7 +1143,7 @@ func (m *machine) lookup(fr *frame, instr *ssa.Lookup) value {
 		}
 		return v
 	case string, *sstr:
-		return m.strIndex(fr, x, k)
+		return m.strIndex(fr, x, k, instr.Index.Type())
 	}
 	panic(fmt.Sprintf("lookup: %T", x))
 }
